@@ -5,6 +5,7 @@ pub mod c04;
 pub mod c05;
 pub mod c06;
 pub mod c07;
+pub mod c08;
 pub mod c09;
 pub mod c10;
 pub mod c11;
@@ -30,6 +31,7 @@ pub fn lookup(id: &str) -> Option<(CheckFn, ReplayFn)> {
         "C05" => Some((c05::run, c05::replay)),
         "C06" => Some((c06::run, c06::replay)),
         "C07" => Some((c07::run, c07::replay)),
+        "C08" => Some((c08::run, c08::replay)),
         "C09" => Some((c09::run, c09::replay)),
         "C10" => Some((c10::run, c10::replay)),
         "C11" => Some((c11::run, c11::replay)),
